@@ -6,21 +6,47 @@ VERIF = os.path.dirname(os.path.dirname(os.path.abspath(__file__)))
 REPO = os.environ.get("VERIF_REPO", "/repo")
 
 
+CHANGES = None
+
+
 def sh(cmd, cwd=None):
     return subprocess.run(cmd, shell=True, cwd=cwd, stdout=subprocess.PIPE, stderr=subprocess.STDOUT, text=True)
 
 
 def main():
-    only = set(a.upper() for a in sys.argv[1:])
+    args = sys.argv[1:]
+    global CHANGES
+    if "--changes" in args:                      # e.g. --changes 5,6 : only seeded/*/change_5 and change_6
+        i = args.index("--changes")
+        CHANGES = set("change_" + n for n in args[i + 1].split(","))
+        del args[i:i + 2]
+    only = set(a.upper() for a in args)
     assert sh("git status --short", REPO).stdout.strip() == "", "/repo has uncommitted changes"
     resp = os.path.join(VERIF, "seeded", "RESULTS.json")
     results = json.load(open(resp)) if os.path.exists(resp) else {}
+    # the checks rewrite evidence/ and coq/theories/Gen/ from what they see; a run with a seed applied must not
+    # leave its output behind, so both are snapshotted here and put back at the end
+    keep = {}
+    for pat in ("evidence/*.json", "coq/theories/Gen/*.v"):
+        for f in glob.glob(os.path.join(VERIF, pat)):
+            keep[f] = open(f, "rb").read()
+    try:
+        sweep(only, results)
+    finally:
+        for f, b in keep.items():
+            open(f, "wb").write(b)
+    finish(results, resp)
+
+
+def sweep(only, results):
     for meta in sorted(glob.glob(os.path.join(VERIF, "seeded", "*", "change_*", "meta.json"))):
         d = os.path.dirname(meta)
         pid = d.split("/")[-2]
         if only and pid not in only:
             continue
         key = pid + "/" + d.split("/")[-1]
+        if CHANGES and d.split("/")[-1] not in CHANGES:
+            continue
         r = sh("git apply %s/patch.diff" % d, REPO)
         if r.returncode != 0:
             results[key] = {"applies": False, "detail": r.stdout[-300:]}
@@ -35,6 +61,9 @@ def main():
         finally:
             sh("git checkout -q -- . && git reset -q", REPO)
         print(key, results[key], flush=True)
+
+
+def finish(results, resp):
     json.dump(results, open(resp, "w"), indent=1, sort_keys=True)
     # README table
     rows = []
